@@ -1,5 +1,5 @@
 (* C15 -- header rules: case-insensitive names, trimmed values, tolerant vs fatal faults. *)
-From MH Require Import proofs.Headers_proofs.
+From MH Require Import proofs.Headers_proofs proofs.Trim_proofs proofs.Padding_proofs.
 
 (* names are matched case-insensitively: any two names equal up to ASCII letter case are
    classified identically (UTF-8 validity is invariant under ASCII lower-casing); the seven
@@ -107,10 +107,37 @@ Proof. exact block_is_lines. Qed.
 Check ((fun h x l r => eq_refl) : forall h x l r, headers_fold h ((x :: l) :: r) =
   match parse_header_tolerant h (x :: l) with Ok h' => headers_fold h' r | Err e => Err e end).
 
-(* partial: invariance under arbitrary Unicode white-space padding of names and values is stated
-   only through `trim` in the rules above; the lemma "trim (pad ++ x ++ pad') = trim x for every
-   White_Space padding" is not proved (it is exercised by the correspondence run and by the
-   independent oracle with the property's padding set). *)
+(* white space around names and values is ignored: str::trim strips any padding made of white-space
+   characters (ASCII and the non-ASCII White_Space code points, in UTF-8) on both sides, for every
+   byte string x *)
+Theorem C15_trim_padding : forall p x q, ws_string p -> ws_string q -> trim (p ++ x ++ q) = trim x.
+Proof. exact trim_padding. Qed.
+Check ((fun p => eq_refl) : forall p, ws_string p = exists cs, Forall ws_char cs /\ p = concat cs).
+Check (ws_c1 : forall a, is_ascii_ws a = true -> ws_char [a]).
+Check (ws_c2 : forall a b, ws2 a b = true -> ws_char [a; b]).
+Check (ws_c3 : forall a b c, ws3 a b c = true -> ws_char [a; b; c]).
+Theorem C15_name_padding : forall p k q, ws_string p -> ws_string q -> utf8_valid k = true ->
+  header_try_from (p ++ k ++ q) = header_try_from k.
+Proof. exact header_name_padding. Qed.
+(* a padded header line is treated exactly as the plain one -- same resulting Headers, same
+   rejection -- the only difference being that the InvalidValue error of a bad Content-Length quotes
+   the padded name and value *)
+Theorem C15_padding_ignored : forall h p k q p' v q',
+  ws_string p -> ws_string q -> ws_string p' -> ws_string q' ->
+  utf8_valid k = true -> utf8_valid v = true -> ~ In COLON k ->
+  parse_header_tolerant h ((p ++ k ++ q) ++ COLON :: (p' ++ v ++ q')) = parse_header_tolerant h (k ++ COLON :: v) \/
+  (parse_header_tolerant h ((p ++ k ++ q) ++ COLON :: (p' ++ v ++ q'))
+     = Err (HeaderError (InvalidValue (p ++ k ++ q) (p' ++ v ++ q'))) /\
+   parse_header_tolerant h (k ++ COLON :: v) = Err (HeaderError (InvalidValue k v))).
+Proof. exact padding_ignored. Qed.
+Theorem C15_padding_ok : forall h p k q p' v q' h',
+  ws_string p -> ws_string q -> ws_string p' -> ws_string q' ->
+  utf8_valid k = true -> utf8_valid v = true -> ~ In COLON k ->
+  (parse_header_tolerant h ((p ++ k ++ q) ++ COLON :: (p' ++ v ++ q')) = Ok h' <->
+   parse_header_tolerant h (k ++ COLON :: v) = Ok h').
+Proof. exact padding_ok. Qed.
+Example C15_ws_example : ws_string [32; 9; 194; 160; 226; 128; 131; 227; 128; 128].
+Proof. exact ws_example. Qed.
 
 Example C15_ex :
   headers_try_from (B"content-LENGTH : +007 " ++ CRLF ++ B"Expect:100-continue" ++ CRLF ++ B"expect: nope" ++ CRLF
@@ -137,3 +164,7 @@ Print Assumptions C15_custom_last_wins.
 Print Assumptions C15_custom_frame.
 Print Assumptions C15_flags_sticky.
 Print Assumptions C15_block_is_lines.
+Print Assumptions C15_trim_padding.
+Print Assumptions C15_name_padding.
+Print Assumptions C15_padding_ignored.
+Print Assumptions C15_padding_ok.
